@@ -447,7 +447,9 @@ class Input(object):
                 n_tag = self.redeemscript[0:1]
                 if not isinstance(n_tag, int):
                     n_tag = int.from_bytes(n_tag, 'big')
-                self.sigs_required = n_tag - 80
+                # Only OP_1 to OP_16 is a number of required signatures
+                if 81 <= n_tag <= 96:
+                    self.sigs_required = n_tag - 80
                 signatures = [s.as_der_encoded() for s in self.signatures[:self.sigs_required]]
                 if b'' in signatures:
                     raise TransactionError("Empty signature found in signature list when signing. "
